@@ -2,6 +2,7 @@ package lang
 
 import (
 	"cmp"
+	"fmt"
 	"math"
 	"slices"
 	"strings"
@@ -182,10 +183,13 @@ func getObjPrototype() *Value {
 				NativeFn: func(e *Evaluator, v []*Value, this *Value) (*Value, error) {
 					newObj := NewObject()
 					for _, value := range v {
-						val, err := this.GetMember(*value)
-						if err != nil {
-							return nil, err
+						// only the object's own members: GetMember would fall back to
+						// the prototype and hand out a method for a key like "length"
+						if value.Tag != ValueNum && value.Tag != ValueStr {
+							return nil, fmt.Errorf("objects can only by indexed with numbers or strings, got %s", value.Tag)
 						}
+						val := (*this.Obj)[value.String()]
+						var err error
 
 						if val == nil {
 							_, err = newObj.SetMember(*value, NewCell(NewValue(nil)))
